@@ -42,7 +42,8 @@ def value_sets(path, go, rng):
     if go == "float64":
         return [{"path": path, "vk": "float64", "bits": str(f64bits(v))} for v in (0.0, -0.0, 0.5, 1.0, 1.5, 2.5, -2.5, 10.0, 100.0, 1e300, float("inf"), float("nan"))]
     if go == "string":
-        return [{"path": path, "vk": "string", "str": s.encode().hex()} for s in ("", "a", "ab", "abc", "prefix_x", "x_suffix", "héllo", "日本語", "a1b2", "ABC", "12", "admin", "x y", "90s", "1m30s")] + \
+        return [{"path": path, "vk": "string", "str": s.encode().hex()} for s in ("", "a", "ab", "abc", "prefix_x", "x_suffix", "héllo", "日本語", "a1b2", "ABC", "12", "admin", "x y", "90s", "1m30s",
+                                                                                  "a  b", "a b", "a\tb", " a", "a ", "A", "x  y", "a\\b", "a\"b", "a'b")] + \
                [{"path": path, "vk": "string", "str": "ff"}]
     if go == "bool":
         return [{"path": path, "vk": "bool", "bool": b} for b in (True, False)]
@@ -105,7 +106,7 @@ class Gen:
         return self.rng.choice(c)
 
     def str_atom(self):
-        c = ["this.S", "'a'", "'abc'", "'prefix_'", "''", '"x y"', "'é'"]
+        c = ["this.S", "'a'", "'abc'", "'prefix_'", "''", '"x y"', "'é'", "'a  b'", "' a'", "'a '", "'A'", '"a\'b"', "'x  y'"]
         if self.vtype == "string":
             c += ["value"] * 5
         return self.rng.choice(c)
@@ -258,8 +259,32 @@ FIXED = [
     ("string", "bool(value)"), ("string", "value.trim() == 'a'"), ("string", "value != '..'"), ("string", "value.matches('[')"), ("string", "value.size() > 0"),
     ("[]string", "value.all(item, item != '' && item in this.Tags)"), ("[]int", "value.exists(item, item in this.Nums)"), ("string", 'value == "admin"'),
     ("string", "value.contains('\\')"), ("string", "string(this.D) == value"), ("int", "uint(value) > 1u"), ("[]string", "value[0] == 'a'"),
+    # the text of the expression must reach cel-go unchanged: blanks and tabs inside literals and between tokens, case
+    ("string", "value != 'a  b'"), ("string", "!value.contains('  ')"), ("string", "value == 'a\tb'"), ("string", "value.startsWith(' a')"),
+    ("string", "value.endsWith('a ')"), ("string", "value   ==   'a'"), ("int", "value>1&&value<10"), ("int", "value\t>\t1"), ("string", "value == 'A'"),
+    ("string", "value == 'a' + ' ' + ' ' + 'b'"), ("string", "value.matches('a  b')"), ("string", "value in ['a  b', ' a', 'a ']"), ("string", "value == \"a'b\""),
+    ("[]string", "value.exists(x, x == 'a  b')"), ("string", "  value != 'x  y'  "),
     ("int", "value != 0 && 10 / value > 1"), ("int", "value == 0 || 10 % value == 1"), ("string", "value.contains('\"')"), ("string", "value == 'a\\\\b'"),
 ]
+
+
+def respace(rng, e):
+    """the same token sequence with other blanks between tokens (never inside a string literal)"""
+    out, q = [], None
+    sep = rng.choice(["  ", "\t", "   ", " \t "])
+    for ch in e:
+        if q:
+            out.append(ch)
+            if ch == q:
+                q = None
+        elif ch in "'\"":
+            q = ch
+            out.append(ch)
+        elif ch == " ":
+            out.append(sep)
+        else:
+            out.append(ch)
+    return "".join(out)
 
 
 def build(rng, tier):
@@ -276,6 +301,8 @@ def build(rng, tier):
         tries += 1
         vt = rng.choice(V_TYPES)
         e = Gen(rng, vt).boolean(rng.randint(0, depth))
+        if rng.random() < 0.12:
+            e = respace(rng, e)
         if (vt, e) in seen or len(e) > 160:
             continue
         seen.add((vt, e))
